@@ -5,6 +5,7 @@
 //! Elementos semitransparentes del edificio: Window, WinGeom
 
 use log::info;
+use nalgebra::Rotation2;
 use serde::{Deserialize, Serialize};
 
 use super::{point, uuid_from_str, vector, HasSurface, Point2, Shade, Uuid, Vector3, WallGeom};
@@ -77,18 +78,22 @@ impl Window {
             },
         };
 
+        // Las jambas están siempre en un plano vertical (el eje X del opaco es horizontal) y, cuando el
+        // opaco no es vertical, su polígono se gira en ese plano el ángulo que se separa el opaco de la vertical
+        let fin_rot = Rotation2::new((wallgeom.tilt - 90.0).to_radians());
+
         let left_fin = Shade {
             id: uuid_from_str(&format!("{}-left_setback", self.id)),
             name: format!("{}_left_setback", self.name),
             geometry: WallGeom {
-                tilt: wallgeom.tilt,
+                tilt: 90.0,
                 azimuth: wallgeom.azimuth + 90.0,
                 position: Some(wall2world * point![wpos.x, wpos.y + wing.height, 0.0]),
                 polygon: vec![
-                    point![0.0, 0.0],
-                    point![0.0, -wing.height],
-                    point![wing.setback, -wing.height],
-                    point![wing.setback, 0.0],
+                    fin_rot * point![0.0, 0.0],
+                    fin_rot * point![0.0, -wing.height],
+                    fin_rot * point![wing.setback, -wing.height],
+                    fin_rot * point![wing.setback, 0.0],
                 ],
             },
         };
@@ -97,14 +102,14 @@ impl Window {
             id: uuid_from_str(&format!("{}-right_setback", self.id)),
             name: format!("{}_right_setback", self.name),
             geometry: WallGeom {
-                tilt: wallgeom.tilt,
+                tilt: 90.0,
                 azimuth: wallgeom.azimuth - 90.0,
                 position: Some(wall2world * point![wpos.x + wing.width, wpos.y + wing.height, 0.0]),
                 polygon: vec![
-                    point![0.0, 0.0],
-                    point![-wing.setback, 0.0],
-                    point![-wing.setback, -wing.height],
-                    point![0.0, -wing.height],
+                    fin_rot.inverse() * point![0.0, 0.0],
+                    fin_rot.inverse() * point![-wing.setback, 0.0],
+                    fin_rot.inverse() * point![-wing.setback, -wing.height],
+                    fin_rot.inverse() * point![0.0, -wing.height],
                 ],
             },
         };
